@@ -3615,6 +3615,9 @@ where
         Value::Float(_f) => {
           match mt {
             7u8 => match constraint {
+              // float16 = #7.25, float32 = #7.26, float64 = #7.27: the width is an
+              // encoding detail that the decoded value does not carry
+              Some(TagConstraint::Literal(25..=27)) => return Ok(()),
               Some(_c) => {
                 // Float values don't match specific simple value constraints like #7.32
                 // They only match the general #7 (no constraint)
